@@ -6,7 +6,7 @@ sys.path.insert(0, os.path.dirname(os.path.abspath(__file__)))
 from z3 import And, If, Int, IntVal, Ints, Not, Or  # noqa: E402
 import mirdump  # noqa: E402
 from mirexec import Executor, Path, Opt, EnumConst, floor_spec, ceil_spec, in_i128, I128_MAX  # noqa: E402
-from c12 import Report, decide, solve, wad_scale_from_source  # noqa: E402
+from c12 import Report, decide, solve, wad_scale_from_source, CROSS  # noqa: E402
 
 ROUND_IDX = {'Floor': 0, 'Ceil': 1, 'Truncate': 2}
 
@@ -19,6 +19,8 @@ def run(task, tier='quick', seed=0, logdir=None):
         rep.detail.append({'mir': [i1, i2]})
         ex = Executor(cu + '\n' + tk, consts={'WAD_SCALE': wad_scale_from_source()})
         ex.enum_idx = ROUND_IDX
+        CROSS.update({'budget': 12 if tier == 'quick' else 300, 'done': 0, 'agree': 0, 'unknown': 0, 'disagree': 0, 'n': 0,
+                      'every': 11 if tier == 'quick' else 1})
         S, A, x = Ints('S A x')
         offsets = range(0, 11) if tier == 'thorough' else [0, 3, 10]
         # (name, rounding spec, numerator factor, denominator)  -- shares = x*(S+V)/(A+1); assets = x*(A+1)/(S+V)
@@ -72,6 +74,9 @@ def run(task, tier='quick', seed=0, logdir=None):
                            vars_={'S': S, 'A': A, 'amount': x, 'P': P})
         rep.queries += ex.queries
         rep.solver_s += ex.solver_s
+        rep.detail.append({'cross_solver': dict(CROSS)})
+        if CROSS['disagree']:
+            rep.inconclusive = 'solvers disagree on %d queries (z3 4.8 vs cvc5 / z3 5.1)' % CROSS['disagree']
         # sat models here speak about generalised products; without a native vault probe they are reported as inconclusive
         if rep.violations:
             unreal = [v for v in rep.violations if not v.get('realised')]
